@@ -507,3 +507,23 @@ Definition geff_part (t : jnode) : option jv * option jnode * option jnode :=
 (* the raw "geff" attribute of the root, straight from the keys *)
 Definition root_attrs (f : fmt) (ks : kstore) : option (list (string * jv)) :=
   match node_doc f ks with NDGroup a => Some a | _ => None end.
+
+(* ---------- keys as strings ---------- *)
+(* a real store names a key by the "/"-joined string; the model works on the components.  split_slash is what the harness does
+   to a raw key (str.split("/")); member names never contain "/" (zarr nests such a name into groups). *)
+Definition key_string (k : key) : string := join "/" k.
+Fixpoint split_slash (s : string) : list string :=
+  match s with
+  | EmptyString => [""]
+  | String c r =>
+      if Ascii.eqb c "/" then "" :: split_slash r
+      else match split_slash r with
+           | [] => [String c ""]
+           | h :: t => String c h :: t
+           end
+  end.
+Fixpoint slash_free (s : string) : bool :=
+  match s with
+  | EmptyString => true
+  | String c r => negb (Ascii.eqb c "/") && slash_free r
+  end.
